@@ -3,7 +3,7 @@ from common import COMMON_TB
 PROP = {
     "bin": "c08",
     "prop_file": "Properties/C08.v",
-    "model_files": ["Columnar/BitPack.v", "Columnar/MonoMap.v", "Columnar/Stats.v", "Columnar/Line.v", "Columnar/Blockwise.v", "Columnar/BlockwiseProofs.v", "Columnar/OptionalIndex.v", "Columnar/OptionalIndexProofs.v", "Columnar/MultiValued.v", "Columnar/MergeIndex.v", "Columnar/IndexTie.v", "Columnar/Spec.v", "Columnar/Cases.v"],
+    "model_files": ["Columnar/BitPack.v", "Columnar/MonoMap.v", "Columnar/Stats.v", "Columnar/Line.v", "Columnar/Blockwise.v", "Columnar/BlockwiseProofs.v", "Columnar/OptionalIndex.v", "Columnar/OptionalIndexProofs.v", "Columnar/MultiValued.v", "Columnar/MergeIndex.v", "Columnar/IndexTie.v", "Columnar/LegacyV1.v", "Columnar/Spec.v", "Columnar/Cases.v"],
     "level": "proof",
     "engine": "E5-codecs",
     "level_text": "Proof (value lists of ANY length, every width allowed by the pinned 56/64 rule, all of u64 incl. 0 and 2^64-1): BitPacker::write/flush lays values out as the "
@@ -17,6 +17,10 @@ PROP = {
                   "i64/bool/f64 mappings are proved inverted and strictly monotone (f64 on bit patterns w.r.t. the sign-magnitude key); optional index (rank / rank_if_exists / select mutually "
                   "inverse and equal to the list specification, any strictly increasing row list, any dense/sparse choice, block boundaries), multivalued start offsets (values_for_doc reproduces "
                   "each row in insertion order) and stacked / shuffled merges of column indexes are proved (OptionalIndexProofs.v, MultiValued.v, MergeIndex.v, IndexTie.v). "
+                  "Legacy columnar format v1 (multivalued index = one start offset per document; the harness re-encodes every generated table / segment as a v1 file): "
+                  "MultiValueIndexV1::select_batch_in_place is proved to map ascending value positions to their documents (pinned `end > pos`), a v1 input of a stacked merge is proved to "
+                  "contribute exactly what the same column contributes in the current format, hence the stacked merge with inputs of either format at any position is proved correct under the "
+                  "pinned flags (row offset added; value-less documents skipped -- the latter is F82, a genuine defect of the unchanged code: proved for inputs outside its class, refuted inside). "
                   "Tied only (cases / list specification evaluated on the implementation's answers, no theorem): byte framing of blocks, metadata, headers and footers (VInt), the merge iterators "
                   "(the merge theorems are about the model; merge_columnar itself is compared with the list specification at the result level only), dictionary-ordinal remapping (result level), "
                   "compact space for u128 / IP columns (result level only), get_batch_u32s / BitPacker1x batch decoding.",
